@@ -8,7 +8,7 @@ import gffutils
 from gffutils.feature import feature_from_line
 
 from gv.engine import history, report
-from gv.model import dbutil
+from gv.model import battery, dbutil
 from gv.model.refdb import RefDB, RefAbort, impl_state
 
 ID = "C10"
@@ -210,6 +210,10 @@ def run_scale(wdir):
     return dict(status="violation" if viol else "ok", key=None, violations=viol, info=dict(scale="delete of 1000 ids in one call"))
 
 
+_FRESH = {}
+QUICK_POPULATE_ALL = False      # set by run(): thorough populates before every operation, quick before the last one
+
+
 def run_history(h, wdir, tag="bfs"):
     if isinstance(tag, tuple) and tag[0] == "scale":
         return run_scale(wdir)
@@ -240,7 +244,9 @@ def run_history(h, wdir, tag="bfs"):
     n = len(h)
     ever = set(model.feats)
 
-    def touch():
+    fam = "gtf" if gtf else "gff3"
+
+    def touch(populate=False):
         # ordinary reads between the operations (they must never change what later reads see)
         db.count_features_of_type("exon")
         db.count_features_of_type()
@@ -251,11 +257,14 @@ def run_history(h, wdir, tag="bfs"):
             list(db.parents(fid, featuretype=("gene", "mRNA")))
         list(db.region(seqid="c1", start=1, end=60))
         list(db.featuretypes()), list(db.seqids())
+        if populate:
+            # the fixed battery (it names things that do not exist yet): whatever the object memoises gets populated
+            battery.battery(db, fam, light=True)
 
     try:
         for i, ev in enumerate(h):
-            touch()
             last = i == n - 1 and fault is None
+            touch(populate=last or QUICK_POPULATE_ALL)
             if not enabled(ev, model):
                 return dict(status="disabled", key=None, violations=[], info=None)
             pre = None
@@ -312,7 +321,18 @@ def run_history(h, wdir, tag="bfs"):
                              detail=dict(history=list(h), original=dialect0, live=db.dialect, reopened=re.dialect)))
         if list(re.directives) != directives0:
             viol.append(dict(kind="directives-changed-by-history", sig=sig, detail=dict(history=list(h), original=directives0, reopened=list(re.directives))))
+        # differential without an expectation: the object that lived through the history answers a fixed battery of
+        # read calls exactly like an object freshly opened on the same file
+        fkey = (key, json.dumps(re.dialect, sort_keys=True), tuple(re.directives))
+        if fkey not in _FRESH:                    # a function of the file's content only
+            if len(_FRESH) > 20000:
+                _FRESH.clear()
+            _FRESH[fkey] = battery.battery(re, fam)
         dbutil.close_db(re)
+        d = battery.diff(battery.battery(db, fam), _FRESH[fkey])
+        if d:
+            viol.append(dict(kind="live-object-answers-differ-from-freshly-opened-object", sig=dict(sig, call=sorted(d)[0]),
+                             detail=dict(history=list(h), differing=d)))
         # filtered relation queries and region queries through the live object
         ftypes = sorted({f["cols"]["featuretype"] for f in model.feats.values()})
         for fid in list(model.feats):
@@ -412,8 +432,10 @@ def run_fault(h, fault, db, path, wdir):
 
 
 def run(tier, seed):
+    global QUICK_POPULATE_ALL
     t0 = time.time()
     depth = depth_of(tier)
+    QUICK_POPULATE_ALL = tier != "quick"
 
     def extra(reps):
         items = [(("scale", "delete1000"), ("I:chain",))]
